@@ -27,7 +27,7 @@ ASSUMPTIONS = [
     "attempt's timestamp; unvalidated runs are repeated",
     'the 60 s read timeout (accept-then-silent) is exercised in the thorough tier only',
 ]
-SUP_VERBS = ('supervisor', 'supervisor-slowsdk', 'supervisor-rejcfg', 'supervisor-start', 'supervisor-long')
+SUP_VERBS = ('supervisor', 'supervisor-slowsdk', 'supervisor-rejcfg', 'supervisor-start', 'supervisor-long', 'supervisor-refuse')
 TRUSTED = ['harness net.Addr whose Network() call marks the start of an attempt; llrp.TestDevice as the scripted reader; testify mock SDK']
 
 
@@ -52,6 +52,8 @@ def _only_of(line):
         only = 'start ' + only
     if line.startswith('supervisor-long '):
         only = 'long ' + only
+    if line.startswith('supervisor-refuse '):
+        only = 'refuse ' + only
     return only
 
 
